@@ -9,6 +9,7 @@ import (
 	"fmt"
 	"math/big"
 	"sort"
+	"strconv"
 	"strings"
 	"time"
 
@@ -171,6 +172,21 @@ func runC06(op string) string {
 			return nil
 		}
 		return m
+	}
+	if (f[0] == "cmpw" || f[0] == "addw" || f[0] == "add3w") && len(f) >= 4 {
+		switch f[1] {
+		case "s":
+			return c06RunW[int64](f, func(s string) (int64, bool) {
+				v, err := strconv.ParseInt(s, 10, 64)
+				return v, err == nil
+			}, func(v int64) string { return strconv.FormatInt(v, 10) })
+		case "u":
+			return c06RunW[uint64](f, func(s string) (uint64, bool) {
+				v, err := strconv.ParseUint(s, 10, 64)
+				return v, err == nil
+			}, func(v uint64) string { return strconv.FormatUint(v, 10) })
+		}
+		return "bad-op"
 	}
 	switch {
 	case f[0] == "cmp" && len(f) == 3:
@@ -523,6 +539,43 @@ func genC06(r *Rand, n int, tier string, emit func(string)) {
 		pols := c06Pols(r)
 		names := c06Names(r)
 		a := c06Rand(r, pols, names)
+		if r.Chance(1, 8) {
+			// fixed-width instantiations: same key structure, quantities of the type
+			signed := r.Bool()
+			k := "u"
+			if signed {
+				k = "s"
+			}
+			aw := c06RetypeW(r, a, signed)
+			bw := c06RetypeW(r, c06Variant(r, a, pols, names), signed)
+			if r.Chance(1, 3) {
+				// same keys, complementary or equal quantities (cancellation, equality, overflow)
+				bw = c06Copy(aw)
+				for x := range bw {
+					for y := range bw[x].es {
+						switch r.Intn(3) {
+						case 0:
+							if signed && bw[x].es[y].qty.IsInt64() && bw[x].es[y].qty.Int64() != -1<<63 {
+								bw[x].es[y].qty = new(big.Int).Neg(bw[x].es[y].qty)
+							}
+						case 1:
+							bw[x].es[y].qty = c06QtyW(r, signed)
+						}
+					}
+				}
+				c06Shuffle(r, bw)
+			}
+			switch r.Intn(3) {
+			case 0:
+				emit("cmpw " + k + " " + c06Lit(aw) + " " + c06Lit(bw))
+			case 1:
+				emit("addw " + k + " " + c06Lit(aw) + " " + c06Lit(bw))
+			default:
+				cw := c06RetypeW(r, c06Variant(r, a, pols, names), signed)
+				emit("add3w " + k + " " + c06Lit(aw) + " " + c06Lit(bw) + " " + c06Lit(cw))
+			}
+			continue
+		}
 		switch r.Intn(12) {
 		case 0, 1, 2:
 			b := c06Variant(r, a, pols, names)
@@ -599,4 +652,163 @@ func genC06(r *Rand, n int, tier string, emit func(string)) {
 			emit("pols " + c06Lit(a))
 		}
 	}
+}
+
+// ---- fixed-width instantiations MultiAsset[int64] / MultiAsset[uint64]
+
+type c06Num interface{ int64 | uint64 }
+
+func c06ParseW[T c06Num](s string, conv func(string) (T, bool)) (*common.MultiAsset[T], bool) {
+	if s == "nil" {
+		return nil, true
+	}
+	data := map[common.Blake2b224]map[cbor.ByteString]T{}
+	if s != "-" {
+		for _, pe := range strings.Split(s, ";") {
+			pi := strings.Split(pe, ":")
+			if len(pi) != 2 {
+				return nil, false
+			}
+			pb, ok := unhex(pi[0])
+			if !ok || len(pb) != 28 {
+				return nil, false
+			}
+			pol := common.NewBlake2b224(pb)
+			if _, dup := data[pol]; dup {
+				return nil, false
+			}
+			inner := map[cbor.ByteString]T{}
+			if pi[1] != "" {
+				for _, ee := range strings.Split(pi[1], ",") {
+					nq := strings.Split(ee, "=")
+					if len(nq) != 2 {
+						return nil, false
+					}
+					nb, ok := unhex(nq[0])
+					if !ok {
+						return nil, false
+					}
+					q, ok := conv(nq[1])
+					if !ok {
+						return nil, false
+					}
+					k := cbor.NewByteString(nb)
+					if _, dup := inner[k]; dup {
+						return nil, false
+					}
+					inner[k] = q
+				}
+			}
+			data[pol] = inner
+		}
+	}
+	m := common.NewMultiAsset[T](data)
+	return &m, true
+}
+
+func c06FullW[T c06Num](m *common.MultiAsset[T], str func(T) string) string {
+	pols := m.Policies()
+	if len(pols) == 0 {
+		return "-"
+	}
+	sort.Slice(pols, func(i, j int) bool { return bytes.Compare(pols[i][:], pols[j][:]) < 0 })
+	var sb strings.Builder
+	for i, p := range pols {
+		if i > 0 {
+			sb.WriteByte(';')
+		}
+		sb.WriteString(hexs(p[:]))
+		sb.WriteByte(':')
+		names := m.Assets(p)
+		sort.Slice(names, func(i, j int) bool { return bytes.Compare(names[i], names[j]) < 0 })
+		for j, n := range names {
+			if j > 0 {
+				sb.WriteByte(',')
+			}
+			sb.WriteString(hexs(n))
+			sb.WriteByte('=')
+			sb.WriteString(str(m.Asset(p, n)))
+		}
+	}
+	return sb.String()
+}
+
+func c06RunW[T c06Num](f []string, conv func(string) (T, bool), str func(T) string) string {
+	get := func(i int, allowNil bool) (*common.MultiAsset[T], bool) {
+		m, ok := c06ParseW[T](f[i], conv)
+		if !ok || (m == nil && !allowNil) {
+			return nil, false
+		}
+		return m, true
+	}
+	clone := func(m *common.MultiAsset[T]) *common.MultiAsset[T] {
+		c, _ := c06ParseW[T](c06FullW(m, str), conv)
+		return c
+	}
+	switch {
+	case f[0] == "cmpw" && len(f) == 4:
+		a, ok1 := get(2, false)
+		b, ok2 := get(3, true)
+		if !ok1 || !ok2 {
+			return "bad-op"
+		}
+		return b01(a.Compare(b))
+	case f[0] == "addw" && len(f) == 4:
+		a, ok1 := get(2, false)
+		b, ok2 := get(3, true)
+		if !ok1 || !ok2 {
+			return "bad-op"
+		}
+		a.Add(b)
+		return "norm=" + a.String() + " full=" + c06FullW(a, str)
+	case f[0] == "add3w" && len(f) == 5:
+		a, ok1 := get(2, false)
+		b, ok2 := get(3, false)
+		c, ok3 := get(4, false)
+		if !ok1 || !ok2 || !ok3 {
+			return "bad-op"
+		}
+		l := clone(a)
+		l.Add(b)
+		l.Add(c)
+		bc := clone(b)
+		bc.Add(c)
+		r := clone(a)
+		r.Add(bc)
+		ab := clone(a)
+		ab.Add(b)
+		ba := clone(b)
+		ba.Add(a)
+		return "assoc=" + b01(l.Compare(r)) + " comm=" + b01(ab.Compare(ba))
+	}
+	return "bad-op"
+}
+
+// quantities of a fixed-width type, boundary-heavy, as big.Int for the literal printer
+func c06QtyW(r *Rand, signed bool) *big.Int {
+	if signed {
+		e := []string{"0", "0", "1", "-1", "2", "-3", "9223372036854775807", "9223372036854775806", "-9223372036854775808", "-9223372036854775807", "4611686018427387904", "-4611686018427387904", "4611686018427387903"}
+		if r.Chance(2, 3) {
+			q, _ := new(big.Int).SetString(e[r.Intn(len(e))], 10)
+			return q
+		}
+		return big.NewInt(int64(r.U64()))
+	}
+	e := []string{"0", "0", "1", "2", "18446744073709551615", "18446744073709551614", "9223372036854775808", "9223372036854775807", "4294967296"}
+	if r.Chance(2, 3) {
+		q, _ := new(big.Int).SetString(e[r.Intn(len(e))], 10)
+		return q
+	}
+	return new(big.Int).SetUint64(r.EdgeU64())
+}
+
+// c06RetypeW: the same keys with quantities of the fixed-width type
+func c06RetypeW(r *Rand, a []c06Pol, signed bool) []c06Pol {
+	b := c06Copy(a)
+	for i := range b {
+		for j := range b[i].es {
+			b[i].es[j].qty = c06QtyW(r, signed)
+		}
+	}
+	return b
 }
